@@ -97,7 +97,7 @@ func Calls(w *vt.W, rng *rand.Rand, n int, small bool) {
 
 		ev := vt.Ev{"ev": "call", "id": id, "q": q, "src": srcEv(r, circular), "alpha": "DNA", "err": "", "panic": "", "aliased": false,
 			"res": vt.Ev{"off": 0, "cells": []cell{}, "circular": false}, "fs": []vt.Ev{}, "other": []cell{}, "errs": []int{},
-			"s": 0, "e": 0, "where": 0, "limit": 0, "ts": 0, "te": 0}
+			"s": 0, "e": 0, "where": 0, "limit": 0, "ts": 0, "te": 0, "inplace": false}
 		var dst sliceable
 		finish := func(err error) {
 			if err != nil {
@@ -146,7 +146,18 @@ func Calls(w *vt.W, rng *rand.Rand, n int, small bool) {
 					}
 				}
 				ev["s"], ev["e"] = s, e
-				dst = mk().New().(sliceable)
+				switch rng.Intn(4) {
+				case 0:
+					// in place: the result replaces the source
+					dst = src
+					ev["inplace"] = true
+				case 1:
+					// a destination that was circular before: the result is linear all the same
+					dst = mk().New().(sliceable)
+					dst.(seq.ConformationSetter).SetConformation(feat.Circular)
+				default:
+					dst = mk().New().(sliceable)
+				}
 				finish(sequtils.Truncate(dst, src, s, e))
 			case 1:
 				ev["op"] = "stitch"
